@@ -449,10 +449,15 @@ func (p *Posix) isBucketEmpty(bucket string) error {
 			return fmt.Errorf("readdir bucket: %w", err)
 		}
 		if err == nil {
-			if len(ents) == 1 && ents[0].Name() != metaTmpDir {
-				return s3err.GetAPIError(s3err.ErrVersionedBucketNotEmpty)
-			} else if len(ents) > 1 {
-				return s3err.GetAPIError(s3err.ErrVersionedBucketNotEmpty)
+			for _, ent := range ents {
+				if ent.Name() == metaTmpDir {
+					continue
+				}
+				// directories without a version in them are leftovers of
+				// interrupted requests
+				if !ent.IsDir() || !p.removeKeylessDirs(filepath.Join(p.versioningDir, bucket), ent.Name()) {
+					return s3err.GetAPIError(s3err.ErrVersionedBucketNotEmpty)
+				}
 			}
 		}
 	}
@@ -464,10 +469,15 @@ func (p *Posix) isBucketEmpty(bucket string) error {
 	if errors.Is(err, fs.ErrNotExist) {
 		return s3err.GetAPIError(s3err.ErrNoSuchBucket)
 	}
-	if len(ents) == 1 && ents[0].Name() != metaTmpDir {
-		return s3err.GetAPIError(s3err.ErrBucketNotEmpty)
-	} else if len(ents) > 1 {
-		return s3err.GetAPIError(s3err.ErrBucketNotEmpty)
+	for _, ent := range ents {
+		if ent.Name() == metaTmpDir {
+			continue
+		}
+		// directories that hold no object are leftovers of interrupted
+		// requests
+		if !ent.IsDir() || !p.removeKeylessDirs(bucket, ent.Name()) {
+			return s3err.GetAPIError(s3err.ErrBucketNotEmpty)
+		}
 	}
 
 	return nil
@@ -1680,7 +1690,10 @@ func (p *Posix) CompleteMultipartUpload(ctx context.Context, input *s3.CompleteM
 	if err == nil && d.IsDir() {
 		// as in PutObject: the key without the trailing "/" cannot be
 		// stored next to the directory (object) of that name
-		return nil, s3err.GetAPIError(s3err.ErrExistingObjectIsDirectory)
+		if !p.removeKeylessDirs(bucket, object) {
+			return nil, s3err.GetAPIError(s3err.ErrExistingObjectIsDirectory)
+		}
+		d, err = os.Stat(objname)
 	}
 
 	// if the versioninng is enabled first create the file object version;
@@ -3027,7 +3040,12 @@ func (p *Posix) PutObject(ctx context.Context, po s3response.PutObjectInput) (s3
 	// object is file
 	d, err := os.Stat(name)
 	if err == nil && d.IsDir() {
-		return s3response.PutObjectOutput{}, s3err.GetAPIError(s3err.ErrExistingObjectIsDirectory)
+		// (a directory that holds no object, left behind by an interrupted
+		// request, does not stand in the way)
+		if !p.removeKeylessDirs(*po.Bucket, *po.Key) {
+			return s3response.PutObjectOutput{}, s3err.GetAPIError(s3err.ErrExistingObjectIsDirectory)
+		}
+		d, err = os.Stat(name)
 	}
 
 	objExists := err == nil
@@ -3578,6 +3596,35 @@ func newestObjVersion(ents []fs.DirEntry) (fs.FileInfo, error) {
 		return null, nil
 	}
 	return newest, nil
+}
+
+// removeKeylessDirs removes the directory dir of the bucket if neither it nor
+// anything below it is an object: no file, and no directory that was uploaded
+// as a directory object (those carry the etag attribute). Directories like
+// that are left behind when a request is interrupted (the gateway is killed)
+// after it made the parents of a key or before it removed them. They hold
+// nothing a listing shows and must not keep the bucket from being deleted or
+// their name from being used as a key. Reports whether dir is gone.
+func (p *Posix) removeKeylessDirs(bucket, dir string) bool {
+	_, err := p.meta.RetrieveAttribute(nil, bucket, dir, etagkey)
+	if err == nil {
+		return false
+	}
+	ents, err := os.ReadDir(filepath.Join(bucket, dir))
+	if err != nil {
+		return false
+	}
+	for _, ent := range ents {
+		if !ent.IsDir() {
+			return false
+		}
+	}
+	for _, ent := range ents {
+		if !p.removeKeylessDirs(bucket, filepath.Join(dir, ent.Name())) {
+			return false
+		}
+	}
+	return os.Remove(filepath.Join(bucket, dir)) == nil
 }
 
 func (p *Posix) removeParents(bucket, object string) {
